@@ -216,6 +216,44 @@ pub fn run_c04f(args: &Args) -> Report {
             }
         }
     }
+    // an up-to-date output with something appended must fail verification, whatever the length of the fresh output: empty,
+    // exactly one or two reader buffers (8192, 16384), one byte less, larger than the buffer
+    if args.shard == 0 {
+        for size in [0usize, 1, 8191, 8192, 8193, 16384, 20000] {
+            let mut src = Vec::new();
+            let mut left = size;
+            while left > 0 {
+                let line = left.min(8192);
+                src.extend(std::iter::repeat(b'a').take(line - 1));
+                src.push(b'\n');
+                left -= line;
+            }
+            let p = Project { files: vec![("sized.txt.txtpp".into(), src)], dirs: vec![], cmds: vec![], sources: vec!["sized.txt.txtpp".into()], sig: vec![], expect_error: false };
+            materialize(&p, &runner.dir);
+            let mut cfg = RunCfg::build_all();
+            cfg.threads = 1;
+            let b = runner.run_here(&cfg, &p.cmds, vec![format!("verify-tail|{size}|build")], &format!("output of {size} bytes: build"));
+            let built = runner.cases[b].imp.after.files.get("sized.txt").cloned();
+            if runner.cases[b].imp.verdict != "ok" || built.as_ref().map(|x| x.len()) != Some(size) {
+                rep.notes.push(format!("verify-tail setup: build of a {size}-byte output gave {} / {:?} bytes", runner.cases[b].imp.verdict, built.map(|x| x.len())));
+                continue;
+            }
+            for tail in [&b"appended line\n"[..], &b"x"[..], &[0u8; 8192][..]] {
+                let mut t = built.clone().unwrap();
+                t.extend_from_slice(tail);
+                std::fs::write(runner.dir.join("sized.txt"), &t).unwrap();
+                let mut vcfg = cfg.clone();
+                vcfg.mode = "verify";
+                let v = runner.run_here(&vcfg, &p.cmds, vec![format!("verify-tail|{size}|{}", tail.len())], &format!("output of {size} bytes + {} appended: verify", tail.len()));
+                rep.count("fault:verify-appended-tail");
+                if runner.cases[v].imp.verdict == "ok" {
+                    let c = &runner.cases[v];
+                    let what = format!("C04: verify reports success although {} byte(s) were appended to the up-to-date output of {size} bytes", tail.len());
+                    rep.violation("oracle", &what, &replay_body(&c.before, &c.cfg, &c.cmds, &format!("# {what}\n")));
+                }
+            }
+        }
+    }
     rep.sample(format!("fault kinds {:?}; e.g. chain root->middle->leaf + sibling, fault `cmd-fails` in the leaf, mode verify => Err", KINDS));
     compare_all(&mut rep, &runner, &model, "C04", "C04.err_delivered_fails, C04.fails_required_fails, C04.failing_never_finished");
     runner.cleanup();
